@@ -18,6 +18,7 @@ def pstr(v):
 def run(prog, chk):
     split_table(prog, chk)
     url_parser_table(prog, chk)
+    host_char_table(prog, chk)
     string_param_table(prog, chk)
     endpoint_string_writers(prog, chk)
     _run(prog, chk)
@@ -266,7 +267,7 @@ def url_parser_table(prog, chk):
     from ksirules.bufinterp import BufInterp
     from ksirules.interp import inline_model
     chk.rule("C20.parse", "URL parser: every reported field (scheme, user-info, host without brackets, port, path, query, fragment) is exactly "
-                          "that part of the URI, for all host forms with and without embedded credentials", floor=570)
+                          "that part of the URI, for all host forms with and without embedded credentials", floor=710)
     fn = prog.fn("http_parser_parse_url", "http_parser.c")
     bp, lp, cp, up = [p["n"] for p in fn.params]
     K = prog.const
@@ -274,7 +275,8 @@ def url_parser_table(prog, chk):
     helpers = {"parse_url_char", "http_parse_host", "http_parse_host_char"}
     deep = getattr(chk, "tier", "quick") == "thorough"
     schemes = ("ksi", "KSI+tcp") + (("ksi+https", "http") if deep else ())
-    hosts = ("h.example", "10.0.0.1", "[::1]", "[2001:db8::7]")
+    # an IPv6 literal may end in a dotted IPv4 part (RFC 3986 IPv6address / ls32)
+    hosts = ("h.example", "10.0.0.1", "[::1]", "[2001:db8::7]", "[::ffff:10.0.0.1]")
     ports = ("", ":8080", ":65535") + ((":1",) if deep else ())
     # path, query and fragment are optional independently of each other: all eight combinations (a fragment or a query directly
     # after the authority is where the server states of the parser end)
@@ -331,8 +333,75 @@ def url_parser_table(prog, chk):
                 "USERINFO": ui[:-1] or None, "port#": int(port[1:]) if port else 0}
         chk.ob("C20.parse", "parse_url[%s]" % url, q.ret == 0 and got == want,
                "expected %s; source: status %s, %s" % (want, q.ret, got), loc=fn.loc(), fn=fn, nontrivial=(ui != "" and host.startswith("[")))
-    if n < 570:
+    if n < 710:
         raise AnalysisBroken("URL parser table: only %d URLs" % n)
+
+
+def host_char_table(prog, chk):
+    """http_parse_host_char evaluated for every state of the authority scanner and every octet: the characters a well-formed
+    authority is made of must move the scanner on (to the state written here from the grammar, not from the source), and the
+    delimiters must end it.  The reference is the grammar of the statement: name = alphanumerics, '.', '-'; IPv4 = digits and '.';
+    bracketed IPv6 = hex digits, ':', '.' between '[' and ']'; port = digits after ':'; user-info ends at '@'."""
+    from ksirules.interp import Interp
+    chk.rule("C20.hostchars", "authority scanner: in every state, each character of a well-formed authority is accepted into the state the "
+                              "grammar gives and each delimiter is refused (state x octet table)", floor=250)
+    fn = prog.fn("http_parse_host_char", "http_parser.c")
+    sp, cp = [p["n"] for p in fn.params]
+    K = prog.const
+    S = {n: K("s_http_" + n) for n in ("host_dead", "userinfo_start", "userinfo", "host_start", "host_v6_start", "host", "host_v6", "host_v6_end",
+                                       "host_port_start", "host_port")}
+    name = {v: k for k, v in S.items()}
+    alnum = set(range(48, 58)) | set(range(65, 91)) | set(range(97, 123))
+    hexd = set(range(48, 58)) | set(range(65, 71)) | set(range(97, 103))
+    digits = set(range(48, 58))
+    unres = alnum | {ord(c) for c in "-._~"}
+    want = {}   # (state, octet) -> required next state; missing = not constrained by the statement
+
+    def req(st, chars, to):
+        for c in chars:
+            want[(st, c)] = to
+    allb = set(range(256))
+    hostc = alnum | {ord("."), ord("-")}
+    for st in ("host_start", "host"):
+        req(st, hostc, "host")
+    req("host_start", {ord("[")}, "host_v6_start")
+    req("host", {ord(":")}, "host_port_start")
+    req("host", allb - hostc - {ord(":"), ord("_")}, "host_dead")
+    req("host_start", allb - hostc - {ord("["), ord("_")}, "host_dead")
+    v6c = hexd | {ord(":"), ord(".")}
+    req("host_v6_start", hexd | {ord(":")}, "host_v6")
+    req("host_v6_start", allb - v6c, "host_dead")
+    req("host_v6", v6c, "host_v6")
+    req("host_v6", {ord("]")}, "host_v6_end")
+    req("host_v6", allb - v6c - {ord("]")}, "host_dead")
+    req("host_v6_end", {ord(":")}, "host_port_start")
+    req("host_v6_end", allb - {ord(":")}, "host_dead")
+    for st in ("host_port_start", "host_port"):
+        req(st, digits, "host_port")
+        req(st, allb - digits, "host_dead")
+    for st in ("userinfo_start", "userinfo"):
+        req(st, {ord("@")}, "host_start")
+        req(st, unres | {ord(c) for c in ":%!$&'()*+,;="}, "userinfo")
+        req(st, {ord(c) for c in "/?#[] \t"} | {0} | set(range(128, 256)), "host_dead")
+    deep = getattr(chk, "tier", "quick") == "thorough"
+    sample = {ord(c) for c in "aAfFgGzZ09.-_:[]@/?#%~ !+=\\"} | {0, 127, 128, 255}
+    n = 0
+    for (st, c), to in sorted(want.items()):
+        if not deep and c not in sample:
+            continue
+        # the parameter is a plain char: octets above 127 arrive as negative values
+        cv = c - 256 if c > 127 else c
+        I = Interp(fn, inputs={sp: S[st], cp: cv}, on_unknown="stop", prog=prog)
+        paths = I.run()
+        chk.paths += len(paths)
+        n += 1
+        if len(paths) != 1 or paths[0].undetermined or not isinstance(paths[0].ret, int):
+            raise AnalysisBroken("http_parse_host_char: evaluation not determined for state %s, octet %d: %s" % (st, c, [q.undetermined[:1] for q in paths]))
+        got = name.get(paths[0].ret, str(paths[0].ret))
+        chk.ob("C20.hostchars", "host_char[%s,%s]" % (st, repr(chr(c)) if 32 < c < 127 else "0x%02x" % c), got == to,
+               "expected next state %s; source: %s" % (to, got), loc=fn.loc(), fn=fn, nontrivial=to != "host_dead")
+    if n < 250:
+        raise AnalysisBroken("authority scanner table: only %d rows" % n)
 
 
 def split_table(prog, chk):
